@@ -76,6 +76,9 @@ def run_one(ctx, extras=False):
     N = int(os.environ.get("VERIF_C01_N", "4" if ctx.quick else "5"))
     count = int(os.environ.get("VERIF_C01_GRAMMARS", "300" if ctx.quick else "1500"))
     gs = gramgen.family(ctx.seed, count, extras=extras)
+    # ordinary constructs in every context (rule types, implicit rules, body of the referenced rule): a window that rotates with the seed / all
+    cross = gramgen.crossed_slice(ctx.seed, int(os.environ.get("VERIF_C01_CROSS", "200" if ctx.quick else "900")))
+    gs = gs + [g for g in cross if g not in set(gs)]
     stages = front(gs, extras)
     accepted = [(g, s) for g, s in zip(gs, stages) if "error" not in s]
     rejected = len(gs) - len(accepted)
@@ -131,7 +134,7 @@ def run_one(ctx, extras=False):
         "programs": len(accepted), "disagreements_checked": paths, "samples": samples,
         "traces_validated_against_impl": validated, "exhaustive": False,
         "functions_encoded": fns,
-        "bounds": f"{len(accepted)} accepted grammars of the enumerated/seeded family (seed {ctx.seed}; {rejected} rejected by pest's validator) x start rules {{a,b}} x every valid UTF-8 input of 0..{N} bytes (symbolic); features: {'grammar-extras' if extras else 'default'}",
+        "bounds": f"{len(accepted)} accepted grammars of the enumerated/seeded family incl. {len(cross)} of the crossed shape x context family (seed {ctx.seed}; {rejected} rejected by pest's validator) x start rules {{a,b}} x every valid UTF-8 input of 0..{N} bytes (symbolic); features: {'grammar-extras' if extras else 'default'}",
         "paths": paths, "queries_discharged": sum(r["queries"] for r in results), "solver_time_s": round(sum(r["solver_s"] for r in results), 2),
         "encoder_mismatches": len(enc), "events": events[:10], "non_terminating_runs": len(nonterm), "front_end_panics": [p[0] for p in panics][:5],
         "explanation": "programs = grammars; disagreements_checked = explored (grammar,start,input class) paths on which VM and reference outcomes were compared",
